@@ -88,7 +88,9 @@ func ValidateFormat(name string, val string, f Format) error {
 	case FormatDate:
 		_, err = time.Parse(time.DateOnly, val)
 	case FormatDateTime:
-		_, err = time.Parse(time.RFC3339, val)
+		if _, err = time.Parse(time.RFC3339, val); err == nil {
+			err = validateHour(val)
+		}
 	case FormatUUID:
 		err = validateUUID(val)
 	case FormatEmail:
@@ -126,7 +128,9 @@ func ValidateFormat(name string, val string, f Format) error {
 			err = fmt.Errorf("invalid JSON")
 		}
 	case FormatRFC1123:
-		_, err = time.Parse(time.RFC1123, val)
+		if _, err = time.Parse(time.RFC1123, val); err == nil {
+			err = validateHour(val)
+		}
 	default:
 		return fmt.Errorf("unknown format %#v", f)
 	}
@@ -219,5 +223,22 @@ func validateUUID(uuid string) error {
 		return fmt.Errorf("uuid: expected RFC4122 format, but got %s", u.Variant().String())
 	}
 
+	return nil
+}
+
+// validateHour returns an error if the hour of a date time value accepted by
+// time.Parse is not written with two digits: time.Parse accepts "3:04:05" for
+// the "15:04:05" layout element while RFC 3339 and RFC 1123 require "03:04:05".
+// The hour is what precedes the first colon in both formats.
+func validateHour(val string) error {
+	for i := 0; i < len(val); i++ {
+		if val[i] != ':' {
+			continue
+		}
+		if i < 2 || val[i-1] < '0' || val[i-1] > '9' || val[i-2] < '0' || val[i-2] > '9' {
+			return fmt.Errorf("hour must be written with two digits")
+		}
+		return nil
+	}
 	return nil
 }
